@@ -113,6 +113,82 @@ def home_for(kh, defaults):
     _homes[key] = d
     return d
 
+# ------------------------------------------------------------------ histories: ONE known_hosts path, several sessions
+KH_OPS = ('write', 'replace_older', 'replace_equal', 'replace_newer', 'inplace', 'inplace_keep', 'symlink', 'keep')
+_hist_n = [0]
+
+def kh_text(kh):
+    pool = Pool.get()
+    return ''.join('%s %s %s\n' % (host_name(sel, HOST), pool.host[kn].get_name(), pool.host[kn].get_base64()) for sel, kn in kh)
+
+class KnownHostsFile:
+    """The known_hosts file of ONE history: a fixed path whose content is changed between the sessions of one process.
+    via 'default' : $HOME/.ssh/known_hosts (what connect() loads by itself)
+        'explicit': another file, handed to SSHSession.load_known_hosts(filename) by the caller before connect()
+        'config'  : another file, named by UserKnownHostsFile in the ssh_config passed to connect()
+    put(kh, op) brings the file to the content `kh` (entries, None = no file) the way an administrator / a tool would:
+      write          open(path, 'w') (new mtime)
+      replace_older  a file prepared beforehand, its mtime an hour OLDER than the old file's, moved over it (mv, rsync -t, cp -p)
+      replace_equal  a prepared file carrying exactly the old file's mtime, moved over it (new inode, same mtime, often same size)
+      replace_newer  a prepared file with a later mtime moved over it
+      inplace        rewritten through the same inode (new mtime)
+      inplace_keep   rewritten through the same inode and the old atime/mtime restored (same inode, same mtime, often same size)
+      symlink        the path becomes a symbolic link to a prepared (old) file
+      keep           the file is left alone
+    """
+    def __init__(self, via='default'):
+        d = os.path.join(RUNDIR, 'hist-%d' % _hist_n[0]); _hist_n[0] += 1
+        Pool.get()
+        shutil.rmtree(d, ignore_errors=True); _mkdir(os.path.join(d, '.ssh'))
+        self.home, self.via, self.n = d, via, 0
+        self.path = os.path.join(d, '.ssh', 'known_hosts') if via == 'default' else os.path.join(d, 'site_known_hosts')
+        self.config = os.path.join(d, 'ssh_config')
+        if via == 'config':
+            with open(self.config, 'w') as f: f.write('Host *\n  UserKnownHostsFile %s\n' % self.path)
+        self.t0 = time.time_ns()
+        self.content = None
+    def put(self, kh, op):
+        self.n += 1
+        path = self.path
+        if op == 'keep': return
+        old = os.stat(path) if os.path.exists(path) else None
+        self.content = None if kh is None else [list(x) for x in kh]
+        if kh is None:
+            if os.path.lexists(path): os.remove(path)
+            return
+        text = kh_text(kh)
+        def prepared(mtime_ns):
+            p = path + '.next'
+            with open(p, 'w') as f: f.write(text)
+            os.utime(p, ns=(mtime_ns, mtime_ns))
+            return p
+        if old is None and op in ('replace_equal', 'inplace', 'inplace_keep'): op = 'write'
+        if op == 'write':
+            with open(path, 'w') as f: f.write(text)
+        elif op == 'replace_older':
+            os.replace(prepared(min(old.st_mtime_ns if old else self.t0, self.t0) - 3600 * 10**9), path)
+        elif op == 'replace_equal':
+            os.replace(prepared(old.st_mtime_ns), path)
+        elif op == 'replace_newer':
+            os.replace(prepared(max(old.st_mtime_ns if old else 0, time.time_ns()) + 2 * 10**9), path)
+        elif op in ('inplace', 'inplace_keep'):
+            with open(path, 'r+') as f:
+                f.write(text); f.truncate()
+            if op == 'inplace_keep': os.utime(path, ns=(old.st_atime_ns, old.st_mtime_ns))
+        elif op == 'symlink':
+            tgt = os.path.join(os.path.dirname(path), 'kh-target-%d' % self.n)
+            with open(tgt, 'w') as f: f.write(text)
+            os.utime(tgt, ns=(self.t0 - 7200 * 10**9 - self.n, self.t0 - 7200 * 10**9 - self.n))
+            tmp = path + '.lnk'
+            if os.path.lexists(tmp): os.remove(tmp)
+            os.symlink(tgt, tmp); os.replace(tmp, path)
+        else:
+            raise ValueError('unknown known_hosts operation %r' % (op,))
+        with open(path) as f:
+            if f.read() != text: raise RuntimeError('harness: known_hosts was not brought to the wanted content by %r' % op)
+    def discard(self):
+        shutil.rmtree(self.home, ignore_errors=True)
+
 @contextlib.contextmanager
 def env_home(d):
     old = os.environ.get('HOME')
@@ -137,13 +213,14 @@ class _Proxy:
     def __setattr__(self, n, v):
         setattr(self.__dict__['_real'], n, v)
 
-def run_ssh_fake(case):
+def run_ssh_fake(case, khfile=None):
     """Run manager.connect_ssh on the case with the recording transport.  Returns (events, result code, exc name, detail).
     events (raw): ('StartClient',) ('GetServerKey',) ('CallbackAsked', host class, key name) ('Auth', kind, idx, ok)
                   ('OpenSession',) ('Invoke', name) ('OpenChannel',) ('Exec',) ('SendHello',)
     CallbackAsked records what the caller's callback was called WITH: the host argument classified relative to the dialled
     host ('host' | 'hostport' | 'other' | 'unexpected:..') and the pool key whose fingerprint it was shown (or 'unexpected:..').
-    detail: for SSHUnknownHostError [host class of .host, key name of .fingerprint], else []."""
+    detail: for SSHUnknownHostError [host class of .host, key name of .fingerprint], else [].
+    khfile: a KnownHostsFile (history mode): its HOME / file is used as it is NOW instead of a per-content home."""
     import paramiko
     import ncclient.transport.ssh as sshmod
     import ncclient.transport as tpkg
@@ -223,7 +300,8 @@ def run_ssh_fake(case):
     if case['pin'] == 'bad': kw['hostkey_b64'] = base64.b64encode(b'\x00\x00\x00\x07ssh-xyz\x00\x00').decode()
     elif case['pin']: kw['hostkey_b64'] = pool.b64(case['pin'])
     if case['user_cb']: kw['unknown_host_cb'] = user_cb
-    home = home_for(case['kh'], case['default_keys'])
+    home = khfile.home if khfile is not None else home_for(case['kh'], case['default_keys'])
+    if khfile is not None and khfile.via == 'config': kw['ssh_config'] = khfile.config
     real_para, real_cls = sshmod.paramiko, tpkg.SSHSession
     sshmod.paramiko = _Proxy(real_para, Transport=Transport, Agent=Agent)
     tpkg.SSHSession = RecSession
@@ -244,6 +322,15 @@ def run_ssh_fake(case):
                     try: sess.connect(**kw1)
                     except Exception: pass
                     st.update(auths=list(saved['auths']), opens=list(saved['opens']), subs=list(saved['subs'])); del ev[:]
+                    sess.connect(**kw2)
+                elif khfile is not None and khfile.via == 'explicit':
+                    # the caller names the file: SSHSession.load_known_hosts(filename), then connect() (a NEW session object)
+                    kw2 = dict(kw); dp = kw2.pop('device_params')
+                    dh = manager.make_device_handler(dp); dh.add_additional_ssh_connect_params(kw2)
+                    sess = RecSession(dh)
+                    if case['verify']:
+                        try: sess.load_known_hosts(khfile.path)
+                        except IOError: pass                                # no such file: the caller goes on without it
                     sess.connect(**kw2)
                 else:
                     manager.connect_ssh(**kw)
@@ -325,7 +412,17 @@ def server_rsa():
         _srv_key = paramiko.RSAKey.generate(2048)
     return _srv_key
 
-def run_ssh_real(case, timeout=20):
+def real_kh_entries(case):
+    """known_hosts entries of a real-server case (the server's key is stored under the pool name SRV / SRVR)"""
+    pool = Pool.get()
+    rsa = case.get('hostkey', 'ecdsa') == 'rsa'
+    srv, other_name = ('SRVR', 'R1') if rsa else ('SRV', 'E2')
+    pool.host[srv] = server_rsa() if rsa else pool.host['E1']
+    return {'absent': None, 'empty': [], 'host': [('host', srv)], 'hostport': [('hostport', srv)], 'different': [('host', other_name)],
+            'different_hostport': [('hostport', other_name)],
+            'different_both': [('host', other_name), ('hostport', other_name)]}[case['kh']]
+
+def run_ssh_real(case, timeout=20, khfile=None):
     """SSHSession.connect(sock=...) against an in-process paramiko server over a socketpair.
     case: verify, kh ('absent'|'host'|'hostport'|'different'|'different_hostport'|'different_both'), pin (None|'match'|'different'),
           cb (None|True|False|'only_presented'|'only_stored'|'only_random': accepts exactly the fingerprint of the server's key /
@@ -381,12 +478,8 @@ def run_ssh_real(case, timeout=20):
         st.start_server(event=threading.Event(), server=Srv())
     except Exception:
         pass
-    srv = 'SRVR' if rsa else 'SRV'             # (known_hosts homes are cached by content: one name per server key)
-    kh = {'absent': None, 'host': [('host', srv)], 'hostport': [('hostport', srv)], 'different': [('host', other_name)],
-          'different_hostport': [('hostport', other_name)],
-          'different_both': [('host', other_name), ('hostport', other_name)]}[case['kh']]
-    pool.host[srv] = hostkey
-    home = home_for(kh, [])
+    kh = real_kh_entries(case)                 # (known_hosts homes are cached by content: one name per server key)
+    home = khfile.home if khfile is not None else home_for(kh, [])
     cb_asked = []
     want = {'only_presented': colon_fp(hostkey), 'only_stored': colon_fp(other), 'only_random': colon_fp(pool.host['X9'])}
     def cb(host, fp):
@@ -400,10 +493,14 @@ def run_ssh_real(case, timeout=20):
     if case['cb'] is not None: kw['unknown_host_cb'] = cb
     if case['password']: kw['password'] = 'right-pw' if case['password'] == 'right' else 'wrong-pw'
     if case['keyfile']: kw['key_filename'] = pool.keyfile['kf0' if case['keyfile'] == 'right' else 'kf1'][0]
+    if khfile is not None and khfile.via == 'config': kw['ssh_config'] = khfile.config
     sess = SSHSession(DefaultDeviceHandler())
     exc = None
     try:
         with env_home(home):
+            if khfile is not None and khfile.via == 'explicit' and case['verify']:
+                try: sess.load_known_hosts(khfile.path)
+                except IOError: pass
             sess.connect(**kw)
     except Exception as e:
         exc = e
